@@ -224,6 +224,9 @@ func sizeJobs(g *hc.Gen, generated int, first bool) []*job {
 		cols, units := 1+g.Intn(6), 1+g.Intn(12)
 		lb := pick(g, []string{"\n", "\n", "\r\n", "\r"})
 		q := pick(g, queries)
+		if n > 700 && strings.Contains(q, " JOIN ") {
+			q = queries[0] // the join is a nested loop: n² comparisons
+		}
 		var extra []opt
 		if g.Intn(3) == 0 {
 			extra = append(extra, opt{"--cpu", pick(g, []string{"1", "4", "16"}), true})
